@@ -589,6 +589,49 @@ func caseValueSet(m *monitor, r *core.Rand) string {
 			m.see("Value.AsValueSet", "", back, wit)
 		}
 	}
+	// the value set lives on after a set value was taken from it: it is enumerated, grows, is wrapped again, shrinks.
+	// The set value taken earlier is looked at again afterwards: still a proper set, and its accessors still agree
+	// with one another (length = number of members handed out, every member handed out is a member).
+	if v != cty.NilVal {
+		m.call("ValueSet history", func() {
+			_ = a.Values()
+			for _, x := range b.Values() {
+				if !x.ContainsMarked() {
+					a.Add(x)
+				}
+			}
+			_ = a.Values()
+			later := cty.SetValFromValueSet(a)
+			_ = later.LengthInt()
+			_ = later.AsValueSlice()
+			for i, x := range a.Values() {
+				if i%2 == 0 {
+					a.Remove(x)
+				}
+			}
+			_ = a.Values()
+		})
+		m.see("cty.SetValFromValueSet", "set value taken earlier, looked at again after the value set changed", v, wit)
+		m.call("Value.AsValueSlice", func() {
+			u, _ := v.Unmark()
+			if !u.IsKnown() || u.IsNull() {
+				return
+			}
+			es := u.AsValueSlice()
+			if len(es) != u.LengthInt() {
+				m.c.Violate("cty.SetValFromValueSet", "accessors of one set value disagree", "set value taken earlier, looked at again after the value set changed", wit(),
+					fmt.Sprintf("LengthInt() = %d, AsValueSlice() hands out %d members: %#v", u.LengthInt(), len(es), es))
+				return
+			}
+			for _, e := range es {
+				if he := u.HasElement(e); e.IsWhollyKnown() && he.IsKnown() && he.False() {
+					m.c.Violate("cty.SetValFromValueSet", "accessors of one set value disagree", "set value taken earlier, looked at again after the value set changed", wit(),
+						fmt.Sprintf("AsValueSlice() hands out %#v, HasElement answers False", e))
+					return
+				}
+			}
+		})
+	}
 	// AsValueSet of a list or map (it adds the members one by one), also one whose members are marked
 	if r.Chance(1, 3) {
 		var es []cty.Value
